@@ -376,3 +376,10 @@ func handName(o handFileOpts) string {
 type iterT = unixfsiter.UnixFSDir__Itr
 
 func cidLink(c cid.Cid) ipld.Link { return cidlink.Link{Cid: c} }
+
+func boolInt(b bool) int {
+	if b {
+		return 1
+	}
+	return 0
+}
